@@ -302,6 +302,10 @@ def _run(spec, rec, qv):
                 if len(M) * max(1, len(o)) > 60:
                     rec.add("skipped")
                     continue
+            if max((abs(float(v)) for v in dict.values(M)), default=0.0) > 1e30:
+                rec.add("skipped_magnitude_cap")
+                continue
+            if op[1][0] != "scalar":
                 after_product = True
 
             def f(M=M):
@@ -325,6 +329,11 @@ def _run(spec, rec, qv):
                 continue
             if len(M) ** e > 80:
                 rec.add("skipped")
+                continue
+            if max((abs(float(v)) for v in dict.values(M)), default=0.0) > 1e30:
+                # repeated squaring overflows to inf and then nan within a few dozen steps; magnitudes stay finite by
+                # construction (found by the coverage-guided stage of the thorough tier)
+                rec.add("skipped_magnitude_cap")
                 continue
             if e > 1:
                 after_product = True
